@@ -7,6 +7,7 @@ import (
 	"fmt"
 	"go/token"
 	"go/types"
+	"sort"
 	"strings"
 
 	"golang.org/x/tools/go/ssa"
@@ -309,6 +310,28 @@ func (f *Frame) applyContract(fc *FuncContract, callee *ssa.Function, sig *types
 
 func (f *Frame) havocLval(lv lval) {
 	c := f.c
+	if lv.globalsOf != nil {
+		for _, name := range sortedMemberNames(lv.globalsOf) {
+			g, ok := lv.globalsOf.Members[name].(*ssa.Global)
+			if !ok {
+				continue
+			}
+			func() {
+				defer func() {
+					if r := recover(); r != nil {
+						if _, isU := r.(unsupportedErr); !isU {
+							panic(r)
+						}
+					}
+				}()
+				t := g.Type().(*types.Pointer).Elem()
+				nv := f.freshVal("hv."+g.Name(), t)
+				c.heap(f.st, globalName(g), c.sortOf(t))
+				f.st.heaps[globalName(g)] = nv.S
+			}()
+		}
+		return
+	}
 	if lv.whole {
 		hn, hs := c.heapNameArr(lv.elemT)
 		h := c.heap(f.st, hn, hs)
@@ -333,6 +356,15 @@ func (f *Frame) havocLval(lv lval) {
 		delete(f.st.ptrs, lv.path.Cell)
 	}
 	c.store(f.st, lv.path, nv.S)
+}
+
+func sortedMemberNames(p *ssa.Package) []string {
+	var ns []string
+	for n := range p.Members {
+		ns = append(ns, n)
+	}
+	sort.Strings(ns)
+	return ns
 }
 
 // ---------- builtins ----------
